@@ -271,11 +271,16 @@ def run_one(rec, rnd, idx, max_cycles):
                     return any(orun and set(calls) & skipped_callees for orun, calls in zip(oruns, D["outside"]))
 
                 rec.check("C12:at_most_one_branch_runs", sum(bw) <= 1, case=case, detail=det)
+                nb_run = 0
                 for bb in branch_bodies:
                     brun = ctx.get(bb.run)
+                    nb_run += int(bool(brun))
                     rec.check("C03:nested_branch_transaction_runs_only_with_its_enclosing_body", not brun or bool(prun), case=case, detail=dict(det, branch_body=bb.name))
                     if brun:
                         rec.count("branch_body_run_cycles")
+                # the body is declared simultaneous with its alternatives (every branch incl. the implicit one of a nonblocking condition is one)
+                rec.check("C13:body_runs_in_exactly_the_cycles_in_which_one_of_its_simultaneous_alternatives_runs", nb_run == int(bool(prun)), case=case,
+                          detail=dict(det, alternative_branch_transactions_running=nb_run))
                 for bb in nested_bodies:
                     brun = ctx.get(bb.run)
                     parent = by_name.get(bb.name.rsplit("_cond", 1)[0])
